@@ -41,6 +41,22 @@ def simp_bool(c):
     return c
 
 
+def _turbofish(callee):
+    depth = 0
+    i = len(callee) - 1
+    while i >= 0:
+        c = callee[i]
+        if c == '>' and callee[i - 1] != '-':
+            depth += 1
+        elif c == '<':
+            depth -= 1
+            if depth == 0:
+                break
+        i -= 1
+    from .mirparse import split_top
+    return split_top(callee[i + 1:-1]) if callee[i - 2:i] == '::' else []
+
+
 class Exec:
     def __init__(s, prog, decisions, concrete_inputs=None, step_budget=STEP_BUDGET):
         s.prog = prog
@@ -70,6 +86,7 @@ class Exec:
         s.spawned = []
         s.env = {}               # free-form per-path environment used by natives (timers, clocks ...)
         s.depth = 0
+        s.targs = []
 
     # ------------------------------------------------------------------ solver / forking
     def check_sat(s, *extra):
@@ -200,9 +217,14 @@ class Exec:
             r.cell.v = val
             return
         v = r.cell.v
+        if v is UNINIT and len(r.path) == 1 and isinstance(r.path[0], int):
+            # aggregate (tuple) initialised field by field
+            v = r.cell.v = []
         for f in r.path[:-1]:
             v = s.step_into(v, f)
         f = r.path[-1]
+        if isinstance(v, list) and f >= len(v):
+            v.extend([UNINIT] * (f + 1 - len(v)))
         while isinstance(v, Ref):
             v = s.read(v)
         if isinstance(v, Adt):
@@ -290,7 +312,21 @@ class Exec:
         if callable(target):
             s.natives_used[getattr(target, 'model_name', callee)] += 1
             return target(s, *args)
+        if callee.endswith('>') and '::<' in callee:
+            # explicit turbofish on an interpreted generic function: remember the type arguments for its body
+            s.targs.append(_turbofish(callee))
+            try:
+                return s.run(target, args)
+            finally:
+                s.targs.pop()
         return s.run(target, args)
+
+    def generic_arg(s, name):
+        """concrete type bound to a generic parameter name of the innermost interpreted generic function (positional for one parameter)"""
+        for t in reversed(s.targs):
+            if t:
+                return t[0] if len(t) == 1 else None
+        return None
 
     def call_value(s, f, args):
         """call a closure / fn item value with an argument list"""
@@ -375,6 +411,9 @@ def compile_place(prog, fn, p):
         pty = place_type(fn, p[1])
         # Box<T> raw parts: ((_b.0: Unique<T>).0: NonNull<T>) ... identities on the box cell
         if re.match(r'(std::boxed::)?Box<', pty) or re.match(r'(std::ptr::|core::ptr::)?(Unique|NonNull)<', pty):
+            return g
+        # transparent wrappers used by the vec! lowering
+        if re.match(r'(std::mem::|core::mem::)?(MaybeUninit|ManuallyDrop|MaybeDangling)<', pty):
             return g
 
         def f(ex, fr):
@@ -485,6 +524,15 @@ def compile_operand(prog, fn, o):
             return v
         return f
     g = compile_place(prog, fn, p)
+    pty = place_type(fn, p)
+    if re.match(r'(std::ptr::|core::ptr::)?(Unique|NonNull)<', pty) or pty.startswith(('*const ', '*mut ')):
+        # raw parts of a Box (or any raw pointer): the pointer value is the box interior, never a copy of the pointee
+        def fptr(ex, fr):
+            v = ex.read(g(ex, fr))
+            if v.__class__ is Adt and v.name in ('Box', 'Arc', 'Rc'):
+                return Ref(v.fields[0])
+            return v
+        return fptr
     if k == 'move':
         return lambda ex, fr: ex.read(g(ex, fr))
 
